@@ -148,6 +148,8 @@ def call(f, *a, **k):
         k = {kk: demerge(v) for kk, v in k.items()}
     if isinstance(getattr(f, "__self__", None), Merged) and getattr(f, "__name__", "") != "get":
         f = getattr(f.__self__.resolve(), f.__name__)
+    if isinstance(f, _LRU_TYPE):
+        return _lru_call(f, a, k)
     if f is builtins.int:
         return models.model_int(*a, **k)
     if f is builtins.str:
@@ -296,31 +298,41 @@ class Merged:
         self.alts = alts
 
     @staticmethod
+    def _gkey(v):
+        if isinstance(v, (str, int, bool, type(None))):
+            return (type(v).__name__, v)
+        if isinstance(v, tuple):
+            try:
+                hash(v)
+                return ("tuple", v)
+            except TypeError:
+                pass
+        return ("id", id(v))
+
+    @staticmethod
+    def _group(pairs):
+        """pairs: iterable of (result, (cond, value)) -> ordered list of (result, [(cond, value), ...])"""
+        groups, order = {}, []
+        for r, cv in pairs:
+            k = Merged._gkey(r)
+            g = groups.get(k)
+            if g is None:
+                g = groups[k] = (r, [])
+                order.append(k)
+            g[1].append(cv)
+        return [groups[k] for k in order]
+
+    @staticmethod
     def make(alts):
-        groups = []
-        for c, v in alts:
-            for g in groups:
-                if g[1] is v or (isinstance(v, (str, int, bool, type(None), tuple)) and type(g[1]) is type(v) and g[1] == v):
-                    g[0].append(c)
-                    break
-            else:
-                groups.append([[c], v])
+        groups = Merged._group((v, (c, v)) for c, v in alts)
         if len(groups) == 1:
-            return groups[0][1]
-        return Merged([(z3.Or(cs) if len(cs) > 1 else cs[0], v) for cs, v in groups])
+            return groups[0][0]
+        return Merged([(z3.Or([c for c, _ in cvs]) if len(cvs) > 1 else cvs[0][0], v) for v, cvs in groups])
 
     def fork_by(self, f):
         """fork on the distinct results of f over the alternatives; the alternatives are narrowed (in place) to the
         group taken, so later operations on this object do not revisit excluded rows"""
-        groups = []
-        for c, v in self.alts:
-            r = f(v)
-            for g in groups:
-                if g[0] is r or (isinstance(r, (str, int, bool, type(None), tuple)) and type(g[0]) is type(r) and g[0] == r):
-                    g[1].append((c, v))
-                    break
-            else:
-                groups.append((r, [(c, v)]))
+        groups = Merged._group((f(v), (c, v)) for c, v in self.alts)
         if len(groups) > 1:
             i = ctx.choose_n([z3.Or([c for c, _ in alts]) for _, alts in groups])
         else:
@@ -368,6 +380,39 @@ class Merged:
 
 def demerge(x):
     return x.resolve() if isinstance(x, Merged) else x
+
+
+import functools as _functools
+
+_LRU_TYPE = type(_functools.lru_cache(maxsize=1)(lambda: None))
+
+
+def _lru_call(f, a, k):
+    """functools.lru_cache wrapper: emulated per path as an association list whose keys are compared with ==
+    (so objects with content-blind or symbolic equality behave as they would in the real cache); the real
+    process-wide cache is never touched by the engine"""
+    store = ctx.path_cache.setdefault(("lru", id(f)), [])
+    ctx.nondet.append(("memo", getattr(f, "__qualname__", "?")))
+    key = tuple(a) + tuple(sorted(k.items()))
+    for k0, v0 in store:
+        if len(k0) != len(key):
+            continue
+        same = True
+        for x, y in zip(k0, key):
+            if type(x) is not type(y) and not (isinstance(x, (str, StrBase)) and isinstance(y, (str, StrBase)) and type(x) is type(y)):
+                same = False
+                break
+            r = x == y
+            if isinstance(r, SymBool):
+                r = bool(r)
+            if not r:
+                same = False
+                break
+        if same:
+            return v0
+    v = f.__wrapped__(*a, **k)
+    store.append((key, v))
+    return v
 
 
 EXTERNAL_MODELS = {}
@@ -497,6 +542,23 @@ def _dict_lookup(obj, key):
 
 
 def _tuple_key_conds(obj, key):
+    ck = ("tkc", id(obj), tuple(_piece_ids(a) for a in key))
+    hit = ctx.path_cache.get(ck)
+    if hit is not None and hit[0] is obj:
+        return hit[1], hit[2]
+    cands, zs = _tuple_key_conds_(obj, key)
+    ctx.path_cache[ck] = (obj, cands, zs, key)
+    return cands, zs
+
+
+def _piece_ids(a):
+    a = a._s if isinstance(a, StrBase) else a
+    if isinstance(a, SymStr):
+        return tuple(q if isinstance(q, int) else (q.get_id() if hasattr(q, "get_id") else id(q)) for q in a.p)
+    return a if isinstance(a, (str, int)) else id(a)
+
+
+def _tuple_key_conds_(obj, key):
     cands, zs = [], []
     for kk in obj:
         if not (isinstance(kk, tuple) and len(kk) == len(key)):
